@@ -2,5 +2,6 @@ import EpdVerif.AuditCmd
 import EpdVerif.Props.C09
 import EpdVerif.Props.C09Big
 import EpdVerif.Props.C09Mode
+import EpdVerif.Props.C09Coupled
 import EpdVerif.Props.Panels
 #audit_namespace EpdVerif.Props.C09
